@@ -1,6 +1,6 @@
 """C04 — crash at any instant: survivor cleanup restores a clean, usable system."""
 import core, re
-import pC09, pC10
+import pC09, pC10, pC04fs
 
 
 def run(ctx):
@@ -20,8 +20,9 @@ def run(ctx):
                              label="containerx.random", oracle=pC10.registry_oracle)
         core.trace_component(ctx, "containerx", ["exhaustive", "--seed", ctx.seed + 2, "--cases", 1500 if quick else 40000, "--progs", 4 if quick else 14,
                                                  "--preempt", 2 if quick else 3], label="containerx.exhaustive", oracle=pC10.registry_oracle)
-        if hasattr(core, "crash_scenarios"):
-            core.crash_scenarios(ctx)
+        # file-system level: node creation / orderly drop / dead-node cleanup killed at every system call
+        # (strace injection), survivor verdict and leftover files against the step-level Lifecycle model
+        pC04fs.fs_part(ctx)
     return core.finish(
         ctx, level="proof",
         rule="shared-memory level: RobustUniqueIndexSet and the registry Container with one logical thread (a process) killed after k atomic steps (k random in 0..44, i.e. at any "
